@@ -53,6 +53,7 @@ struct Config {
   uint64_t maxExec = 0;   // 0 = no cap
   int rootStride = 1, rootOffset = 0;  // partition of the root's alternatives across cases
   bool useTbb = true;
+  bool taskPoints = false;  // TBB task boundaries are scheduling points even when workers == 1 (clients of engine C whose loops run inline)
   bool captureStderr = false;
   // run executions inside the calling process (no fork): needed under TSan, whose fork is very slow.  State that
   // survives an execution (caches, ID counters) is brought to its steady state by one discarded warm-up run.
@@ -88,6 +89,7 @@ class Explorer {
       if (cfg.useTbb) {
         tbbrt_reset();
         tbbrt_config(cfg.workers, cfg.concurrency);
+        tbbrt_task_points(cfg.taskPoints ? 1 : 0);
       }
       vs_begin(sh_);
       std::string out = body();
@@ -138,6 +140,7 @@ class Explorer {
         alarm((unsigned)(30 * (cfg.timeout < 1 ? 1 : cfg.timeout)));
       }
       if (cfg.useTbb) tbbrt_config(cfg.workers, cfg.concurrency);
+      if (cfg.useTbb) tbbrt_task_points(cfg.taskPoints ? 1 : 0);
       vs_begin(sh_);
       std::string out = body();
       if (cfg.useTbb) {
